@@ -400,6 +400,147 @@ pub fn generate(s: &mut Session, thorough: bool) -> bool {
             add(s, "simulated-event-extreme", run, &banks, &mut stats);
         }
     }
+    // (iv) near-valid events: one bit / one byte of one bank of a consistent event changed. The
+    // decoders' own harnesses (C01-C06) do this on single packets; here the changed packet goes
+    // through try_from_banks, timestamp, avalanches and vertex (a decoder panic on a near-valid
+    // TRG word or chunk is a crash of the whole event).
+    for run in [u32::MAX, 11084] {
+        let base = c10::small_spec(&mut rng, run);
+        let banks = c10::spec_banks(&mut rng, &base);
+        for (bi, (name, data)) in banks.iter().enumerate() {
+            let positions: Vec<usize> = if name == "ATAT" || data.len() <= 120 {
+                (0..data.len()).collect()
+            } else {
+                // headers and footers of long packets, plus a stride through the body
+                (0..56.min(data.len())).chain((data.len() - 8)..data.len()).chain((56..data.len() - 8).step_by(97)).collect()
+            };
+            for &pos in &positions {
+                for bit in 0..8 {
+                    if !thorough && name != "ATAT" && bit % 3 != 0 {
+                        continue;
+                    }
+                    let mut b = banks.clone();
+                    b[bi].1[pos] ^= 1 << bit;
+                    add(s, "near-valid-bit", run, &b, &mut stats);
+                }
+                for v in [0x01u8, 0x0F, 0x7F, 0x80, 0xFF] {
+                    if !thorough && name != "ATAT" && pos % 4 != 0 {
+                        continue;
+                    }
+                    let mut b = banks.clone();
+                    b[bi].1[pos] = v;
+                    add(s, "near-valid-byte", run, &b, &mut stats);
+                }
+            }
+        }
+        // the same inside a PWB packet, with the chunk CRCs recomputed so that the change
+        // reaches the packet decoder and the event builder
+        if let Some(p) = base.pads.first() {
+            let boards = c10::pwb_boards();
+            let (bname, mac, dev) = (&boards[p.board].0, boards[p.board].1, boards[p.board].2);
+            let payload = c10::pwb_payload(&mut rng, mac, b'A' + p.chip, p.req, &p.sent);
+            for pos in (0..56.min(payload.len())).chain((payload.len().saturating_sub(6))..payload.len()) {
+                for v in [payload[pos] ^ 1, payload[pos] ^ 0x80, 0x00, 0xFF] {
+                    let mut pl = payload.clone();
+                    pl[pos] = v;
+                    let mut b: Banks = banks.iter().filter(|(n, _)| !n.starts_with("PC")).cloned().collect();
+                    b.extend(c10::chunk_banks(&mut rng, &c10::pc_name(bname), &pl, p.chunk_size, dev, p.chip));
+                    add(s, "near-valid-pwb-payload", run, &b, &mut stats);
+                }
+            }
+        }
+    }
+    // (v) plateaus and exact ties: adjacent pads (and wires) carrying exactly the same waveform at
+    // the time a wire fires. The pad centroid divides by ln(middle^2 / (first*last)): equal
+    // amplitudes must never reach it (a NaN z would make the drift lookup in vertex() panic).
+    if let Some(g) = Geometry::new(u32::MAX) {
+        let run = u32::MAX;
+        let dw = hooks::wire_delay(run).unwrap_or(100);
+        let dp = hooks::pad_delay(run).unwrap_or(100);
+        let clip = |x: f64| x.round().clamp(-32768.0, 32767.0) as i16;
+        let shapes: [&[f64]; 8] = [
+            &[1.0, 1.0, 1.0], &[1.0, 1.0, 0.5], &[0.5, 1.0, 1.0], &[1.0, 1.0, 1.0, 1.0], &[0.5, 1.0, 1.0, 0.5],
+            &[1.0, 1.0], &[0.25, 1.0, 0.25, 1.0, 0.25], &[1.0, 0.5, 1.0],
+        ];
+        for (k, shape) in shapes.iter().enumerate() {
+            for rep in 0..(if thorough { 12 } else { 3 }) {
+                let wire = rng.below(256) as usize;
+                let col = hooks::verif_wire_to_pad_column(wire);
+                let row0 = rng.range(1, 560) as usize;
+                let bin = rng.range(5, 200) as usize;
+                let a = [200.0, 800.0, 3000.0][rep % 3];
+                let mut wires = Vec::new();
+                for (j, dwire) in [0usize, 1].iter().enumerate() {
+                    // one wire, or two adjacent wires with exactly equal amplitudes
+                    if j == 1 && k % 2 == 0 {
+                        continue;
+                    }
+                    let w = (wire + dwire) % 256;
+                    if hooks::verif_wire_to_pad_column(w) != col {
+                        continue;
+                    }
+                    let pos = TpcWirePosition::try_from(w).unwrap();
+                    let bl = hooks::wire_baseline(run, pos).unwrap_or(0) as f64;
+                    let gn = hooks::wire_gain(run, pos).unwrap_or(1.0);
+                    let mut sig = vec![0.0; 400];
+                    for (i, x) in g.wire_resp.iter().enumerate() {
+                        if dw + bin + i < sig.len() {
+                            sig[dw + bin + i] += a * x;
+                        }
+                    }
+                    let (board, ch) = g.wire_src[w];
+                    wires.push(WireSpec { board, ch, wave: sig.iter().map(|x| clip(bl + x / gn)).collect() });
+                }
+                let mut chips: BTreeMap<(usize, u8), Vec<(u16, Vec<i16>)>> = BTreeMap::new();
+                for (d, f) in shape.iter().enumerate() {
+                    let r = row0 + d;
+                    if r >= 576 {
+                        continue;
+                    }
+                    let Some(&(board, chip, readout)) = g.pad_src.get(&(col, r)) else { continue };
+                    let pos = TpcPadPosition { column: col.try_into().unwrap(), row: r.try_into().unwrap() };
+                    let bl = hooks::pad_baseline(run, pos).unwrap_or(0) as f64;
+                    let gn = hooks::pad_gain(run, pos).unwrap_or(1.0);
+                    let mut sig = vec![0.0; 400];
+                    for (i, x) in g.pad_resp.iter().enumerate() {
+                        if dp + bin + i < sig.len() {
+                            sig[dp + bin + i] += 2.0 * a * f * x;
+                        }
+                    }
+                    chips.entry((board, chip)).or_default().push((readout, sig.iter().map(|x| clip(bl + x / gn)).collect()));
+                }
+                let mut pads = Vec::new();
+                for ((board, chip), mut sent) in chips {
+                    sent.sort_by_key(|x| x.0);
+                    pads.push(PwbSpec { board, chip, req: 400, sent, chunk_size: 1400 });
+                }
+                let spec = Spec { run, ts: rng.next() as u32, wires, pads };
+                let banks = c10::spec_banks(&mut rng, &spec);
+                add(s, "plateau-and-ties", run, &banks, &mut stats);
+            }
+        }
+    }
+    // (vi) events of the independent forward model (harness/src/sim.rs): 2-4 helical tracks from a
+    // common vertex, which the library reconstructs to a vertex
+    #[cfg(feature = "sim")]
+    {
+        let mut with_vertex = 0usize;
+        let n = if thorough { 60 } else { 8 };
+        for i in 0..n {
+            let mut cfg = crate::sim::SimConfig::default();
+            if i % 4 == 3 {
+                cfg.noise_adc = 3.0;
+            }
+            let ev = crate::sim::simulate_event(&mut crate::sim::event_rng(s.seed, i), &cfg);
+            let banks: Banks = ev.banks.clone();
+            let before = *stats.get("events with a vertex").unwrap_or(&0);
+            add(s, "forward-model-event", crate::sim::SIM_RUN, &banks, &mut stats);
+            if *stats.get("events with a vertex").unwrap_or(&0) > before {
+                with_vertex += 1;
+            }
+        }
+        s.notes.insert("forward_model_events_with_vertex".into(), serde_json::json!(format!("{with_vertex}/{n}")));
+    }
     for (k, v) in stats {
         s.notes.insert(k.to_string(), serde_json::json!(v));
     }
